@@ -106,6 +106,7 @@ type Runtime struct {
 	derived       map[string]int
 	derivedOf     []int
 	defaultSlices [][]argmapper.Arg
+	opSlices      [][]argmapper.Arg
 	FilterCalls   int
 	NilStructOps  map[int][]int // op -> parties that returned a nil struct during it
 	InstErr       error
@@ -326,6 +327,22 @@ func Instantiate(w *World, sim *simrt.Sim, st *core.Stats) *Runtime {
 			rt.args[i] = argmapper.FilterOutput(rt.makeFilter(a))
 		}
 	}
+	for i, a := range w.Args {
+		if a.Kind != ArgTypedMulti {
+			continue
+		}
+		var vs []interface{}
+		for k, ci := range a.Multi {
+			if k < len(a.NilBefore) && a.NilBefore[k] {
+				vs = append(vs, nil)
+			}
+			vs = append(vs, MakeValue(w.Args[ci].Label.Type, rt.ArgTok[ci]))
+		}
+		if a.NilLast {
+			vs = append(vs, nil)
+		}
+		rt.args[i] = argmapper.Typed(vs...)
+	}
 	// parties (those referenced as defaults of others cannot be cyclic: defaults are values only)
 	for pi := range rt.Parties {
 		if err := rt.buildParty(pi); err != nil {
@@ -524,11 +541,14 @@ func (rt *Runtime) buildParty(pi int) error {
 		for _, s := range p.In {
 			inT = append(inT, Types[s.Type])
 		}
-	case FormStruct, FormPtrStruct:
+	case FormStruct, FormPtrStruct, FormPtrPtrStruct:
 		inStruct = structTypeOf(p.In)
-		if p.InForm == FormPtrStruct {
+		switch p.InForm {
+		case FormPtrStruct:
 			inT = []reflect.Type{reflect.PtrTo(inStruct)}
-		} else {
+		case FormPtrPtrStruct:
+			inT = []reflect.Type{reflect.PtrTo(reflect.PtrTo(inStruct))}
+		default:
 			inT = []reflect.Type{inStruct}
 		}
 	}
@@ -557,6 +577,12 @@ func (rt *Runtime) buildParty(pi int) error {
 		case FormStruct:
 			for i := range p.In {
 				vals[i] = args[0].Field(i + 1)
+			}
+		case FormPtrPtrStruct:
+			if !args[0].IsNil() && !args[0].Elem().IsNil() {
+				for i := range p.In {
+					vals[i] = args[0].Elem().Elem().Field(i + 1)
+				}
 			}
 		case FormPtrStruct:
 			if args[0].IsNil() {
@@ -680,7 +706,8 @@ func (rt *Runtime) exec(pi int, in []reflect.Value) (outs []reflect.Value, serr 
 			}
 		}
 		v := reflect.ValueOf(MakeValue(t, id))
-		if IsIface(s.Type) {
+		if IsIface(s.Type) && p.OutForm != FormBuilt {
+			// (a build callback stores the concrete value, as user code would)
 			iv := reflect.New(Types[s.Type]).Elem()
 			iv.Set(v)
 			v = iv
@@ -719,6 +746,11 @@ func (rt *Runtime) SuppliedTokens(op int) map[uint64]bool {
 		for _, a := range as {
 			if a >= 0 && a < len(rt.ArgTok) && rt.ArgTok[a] != 0 {
 				out[rt.ArgTok[a]] = true
+			}
+			if a >= 0 && a < len(rt.W.Args) {
+				for _, ci := range rt.W.Args[a].Multi {
+					out[rt.ArgTok[ci]] = true
+				}
 			}
 		}
 	}
@@ -915,6 +947,17 @@ func (rt *Runtime) RunOp(i int) *OpResult {
 	}
 	rt.Sim.Event("op", uint64(i))
 	args := rt.argList(o.Args)
+	if q := o.ShareArgsWith - 1; q >= 0 && q < i && q < len(rt.opSlices) && len(rt.opSlices[q]) <= len(o.Args) {
+		// build this list by appending to the other operation's slice
+		args = rt.opSlices[q]
+		for _, a := range o.Args[len(rt.opSlices[q]):] {
+			args = append(args, rt.args[a])
+		}
+	}
+	for len(rt.opSlices) <= i {
+		rt.opSlices = append(rt.opSlices, nil)
+	}
+	rt.opSlices[i] = args
 	p, class, site, detail := core.Guard(func() {
 		switch o.Kind {
 		case OpCall:
